@@ -136,7 +136,8 @@ theorem second_sort_total_of_exact_cycles (cyc : List Edge → List Nat) (tables
   exact ⟨x, hx, hcyc x hon⟩
 
 /-- a two-table cycle: both nodes are on a cycle in the sense of `OnCycle` -/
-example : OnCycle [(1, 2), (2, 1)] 1 := Reach.tail (Reach.step (by decide)) (by decide)
+example : OnCycle [(1, 2), (2, 1)] 1 :=
+  Reach.tail (b := 2) (Reach.step (by decide)) (by decide)
 
 /-! ## create_all on a strict backend -/
 
